@@ -359,3 +359,67 @@ def FaultyFS(**kw):
     if _FaultyFS is None:
         _FaultyFS = make_faulty_fs_classes()
     return _FaultyFS(**kw)
+
+
+# ---------------------------------------------------------------------- statement-level yield injection
+class LineJitter:
+    """sys.monitoring LINE callback on the code objects of chosen classes / modules: threads whose name starts with
+    `thread_prefix` sleep for a seeded 0..max_sleep at a fraction `p` of the statements they start inside that code
+    (check-then-act windows inside the store code get other threads scheduled into them)."""
+
+    TOOL = 4
+
+    def __init__(self, owners, rng, p=0.08, max_sleep=0.0015, thread_prefix="writer-"):
+        import types
+
+        self.rng, self.p, self.max_sleep, self.prefix = rng, p, max_sleep, thread_prefix
+        self.codes = []
+        seen = set()
+        for o in owners:
+            for v in vars(o).values():
+                f = getattr(v, "__func__", v)
+                if isinstance(f, property):
+                    f = f.fget
+                if isinstance(f, types.FunctionType) and f.__code__ not in seen:
+                    if isinstance(o, types.ModuleType) and f.__module__ != o.__name__:
+                        continue
+                    seen.add(f.__code__)
+                    self.codes.append(f.__code__)
+        self.yields = 0
+        self.lines = 0
+        self._lock = threading.Lock()
+        self._on = False
+
+    def _cb(self, code, line):
+        if not threading.current_thread().name.startswith(self.prefix):
+            return None
+        with self._lock:
+            self.lines += 1
+            r = self.rng.random()
+            if r >= self.p:
+                return None
+            self.yields += 1
+            d = self.rng.random() * self.max_sleep
+        time.sleep(d)
+        return None
+
+    def __enter__(self):
+        mon = sys.monitoring
+        try:
+            mon.use_tool_id(self.TOOL, "verif-line-jitter")
+        except ValueError:
+            return self  # tool id busy: no injection (counted as zero yields)
+        self._on = True
+        mon.register_callback(self.TOOL, mon.events.LINE, self._cb)
+        for c in self.codes:
+            mon.set_local_events(self.TOOL, c, mon.events.LINE)
+        return self
+
+    def __exit__(self, *a):
+        if self._on:
+            mon = sys.monitoring
+            for c in self.codes:
+                mon.set_local_events(self.TOOL, c, 0)
+            mon.register_callback(self.TOOL, mon.events.LINE, None)
+            mon.free_tool_id(self.TOOL)
+            self._on = False
